@@ -206,10 +206,15 @@ def run_case(case):
             # top of the loop: next round
             while script.events and script.events[0]["k"] == "fault":
                 ev = script.events.popleft()
+                # a connection that has started failing keeps failing: a new plan does not revive it
                 if ev["c"] in script.socks:
-                    script.socks[ev["c"]].ok_calls = ev["n"]
+                    sk = script.socks[ev["c"]]
+                    if not (sk.ok_calls is not None and sk.ok_calls <= 0):
+                        sk.ok_calls = ev["n"]
                 else:
-                    script.pending_faults[ev["c"]] = ev["n"]
+                    cur = script.pending_faults.get(ev["c"])
+                    if not (cur is not None and cur <= 0):
+                        script.pending_faults[ev["c"]] = ev["n"]
             if not script.events:
                 script.mm._keep_running = False
                 return [], [], []
